@@ -115,6 +115,7 @@ func c11Snapshot(steps int, dup bool) {
 	final := sub.(TestScope).Snapshot()
 
 	nC, nG, nT, nH := 0, 0, 0, 0
+	var mutate []func()
 	for k := 0; k < 2; k++ {
 		tags := tagsOf(k)
 		if cSeen[k] {
@@ -126,8 +127,9 @@ func c11Snapshot(steps int, dup bool) {
 				verifrt.Assert("c11.counter-is-sum", e.Value() == cSum[k])
 				verifrt.Assert("c11.counter-name", e.Name() == fq(k, "c"))
 				verifrt.Assert("c11.counter-tags", len(e.Tags()) == len(tags) && e.Tags()["r"] == tags["r"] && (k == 0 || c11Override || e.Tags()["t"] == "2"))
-				// modifying the snapshot does not affect the scope
-				e.Tags()["r"] = "changed"
+				// modifying the snapshot does not affect the scope (done after all entries were
+				// checked: the entries of one scope in one snapshot may share their tag map)
+				mutate = append(mutate, func() { e.Tags()["r"] = "changed" })
 			}
 		}
 		if gSeen[k] {
@@ -136,6 +138,8 @@ func c11Snapshot(steps int, dup bool) {
 			verifrt.Assert("c11.gauge-entry", ok)
 			if ok {
 				verifrt.Assert("c11.gauge-is-last-update", fbits(e.Value()) == gLast[k])
+				verifrt.Assert("c11.gauge-tags", len(e.Tags()) == len(tags) && e.Tags()["r"] == tags["r"])
+				mutate = append(mutate, func() { e.Tags()["r"] = "changed-g"; delete(e.Tags(), "t") })
 			}
 		}
 		if tSeen[k] {
@@ -152,6 +156,8 @@ func c11Snapshot(steps int, dup bool) {
 				if len(e.Values()) > 0 {
 					e.Values()[0] = -1
 				}
+				verifrt.Assert("c11.timer-tags", len(e.Tags()) == len(tags) && e.Tags()["r"] == tags["r"])
+				mutate = append(mutate, func() { e.Tags()["r"] = "changed-t"; delete(e.Tags(), "t") })
 			}
 		}
 		if hSeen[k] {
@@ -161,6 +167,8 @@ func c11Snapshot(steps int, dup bool) {
 			if ok {
 				vals := e.Values()
 				verifrt.Assert("c11.histogram-durations-nil", e.Durations() == nil)
+				verifrt.Assert("c11.histogram-tags", len(e.Tags()) == len(tags) && e.Tags()["r"] == tags["r"])
+				mutate = append(mutate, func() { e.Tags()["r"] = "changed-h"; delete(e.Tags(), "t") })
 				if dup {
 					// bounds b1 == b2: the map has one entry for that bound holding all samples <= b1
 					verifrt.Assert("c11.histogram-dup-bound-count", vals[b1] == hCnt[k][0]+hCnt[k][1])
@@ -174,6 +182,9 @@ func c11Snapshot(steps int, dup bool) {
 				verifrt.Assert("c11.histogram-total", total == hCnt[k][0]+hCnt[k][1]+hCnt[k][2])
 			}
 		}
+	}
+	for _, f := range mutate {
+		f()
 	}
 	verifrt.Assert("c11.one-entry-per-metric", len(final.Counters()) == nC && len(final.Gauges()) == nG && len(final.Timers()) == nT && len(final.Histograms()) == nH)
 	// the earlier snapshot is an independent copy
@@ -194,8 +205,17 @@ func c11Snapshot(steps int, dup bool) {
 				verifrt.Assert("c11.snapshot-modification-does-not-leak", e.Tags()["r"] == tagsOf(k)["r"])
 			}
 		}
+		if gSeen[k] {
+			_, ok := again.Gauges()[KeyForPrefixedStringMap(fq(k, "g"), tagsOf(k))]
+			verifrt.Assert("c11.later-snapshot-gauge-entry-under-its-own-tags", ok)
+		}
+		if hSeen[k] {
+			_, ok := again.Histograms()[KeyForPrefixedStringMap(fq(k, "h"), tagsOf(k))]
+			verifrt.Assert("c11.later-snapshot-histogram-entry-under-its-own-tags", ok)
+		}
 		if tSeen[k] {
 			e, ok := again.Timers()[KeyForPrefixedStringMap(fq(k, "t"), tagsOf(k))]
+			verifrt.Assert("c11.later-snapshot-timer-entry-under-its-own-tags", ok)
 			if ok && len(e.Values()) > 0 {
 				verifrt.Assert("c11.snapshot-values-modification-does-not-leak", e.Values()[0] == tVals[k][0])
 			}
